@@ -478,14 +478,17 @@ Fixpoint acked_in (i : sid) (L : Z) (c : rconn) (ops : list cop) : Prop :=
 Lemma zz_dec (a b : Z * Z) : {a = b} + {a <> b}.
 Proof. decide equality; apply Z.eq_dec. Qed.
 
-Lemma owed_run dmax i x ops : forall c now, creach_t dmax c now -> crun_t dmax c now ops -> In x (owed (spc c i)) ->
+Lemma crun_t_wf dmax ops : forall c now, crun_t dmax c now ops -> wf_cops ops.
+Proof. induction ops as [|o r IH]; intros c now H; cbn in *; [exact I|]. destruct H as ((H1 & _) & H2). split; eauto. Qed.
+
+Lemma owed_run i x ops : forall c, creach c -> wf_cops ops -> In x (owed (spc c i)) ->
   acked_in i (fst x) c ops \/ In CReinit ops \/ In x (owed (spc (crun c ops) i)).
 Proof.
-  induction ops as [|o r IH]; intros c now R H Hin; cbn [crun crun_ord acked_in]; [auto|].
+  induction ops as [|o r IH]; intros c R H Hin; cbn [crun crun_ord acked_in]; [auto|].
   destruct H as (H1 & H2).
   destruct (in_dec zz_dec x (owed (spc (snd (cstep c o)) i))) as [Y|N].
-  - destruct (IH _ _ (crt_step _ _ _ _ R H1) H2 Y) as [Q|[Q|Q]]; [left; right; exact Q|right; left; right; exact Q|right; right; exact Q].
-  - destruct (owed_leaves_only_composed_l c o i x (creach_t_creach _ _ _ R) Hin N) as [->|Q]; [right; left; left; reflexivity|].
+  - destruct (IH _ (creach_step _ _ R H1) H2 Y) as [Q|[Q|Q]]; [left; right; exact Q|right; left; right; exact Q|right; right; exact Q].
+  - destruct (owed_leaves_only_composed_l c o i x R Hin N) as [->|Q]; [right; left; left; reflexivity|].
     left. left. exact Q.
 Qed.
 
@@ -511,7 +514,7 @@ Theorem ack_timely_composed_l dmax c now i L t ops u delay room blocked : creach
         owed (spc c'' i) = [] /\ ack_at (spc c'' i) = None)).
 Proof.
   intros R Hin H c'.
-  destruct (owed_run dmax i (L, t) ops c now R H Hin) as [Q|[Q|Q]]; [left; exact Q|right; left; exact Q|].
+  destruct (owed_run i (L, t) ops c (creach_t_creach _ _ _ R) (crun_t_wf _ _ _ _ H) Hin) as [Q|[Q|Q]]; [left; exact Q|right; left; exact Q|].
   right. right. destruct (disc (spc c' i)) eqn:D; [left; reflexivity|right].
   pose proof (crun_t_reach dmax ops c now R H) as R'. fold c' in R'.
   destruct (ack_timely_pending_composed_l dmax c' _ i L t R' D Q) as (M & x & Ea & Bx).
